@@ -148,20 +148,20 @@ func (w *World) execPointCall(c *pointCall) {
 	for i, a := range c.sargs {
 		fsa[i] = secp256k1.NewScalarFrom(w.scalars[a])
 	}
-	po1 := protect(func() { c.f(fr, fpa, fsa) })
-	enc1 := encState(fr)
-	for i, a := range c.pargs {
-		was := snapP[a]
-		if w.operandChanged(&was, fpa[i]) {
-			w.r.Violate("C18", "operand-modified", c.name, w.step, "%s: point operand #%d was modified by the call (fresh receiver, distinct operands)", c.desc, i+1)
-		}
+	var po1 callOut
+	var enc1 string
+	runFresh := func() {
+		po1 = protect(func() { c.f(fr, fpa, fsa) })
+		enc1 = encState(fr)
 	}
-	for i, a := range c.sargs {
-		if !bytes.Equal(fsa[i].Bytes(), snapS[a]) {
-			w.r.Violate("C18", "operand-modified", c.name, w.step, "%s: scalar operand #%d was modified by the call", c.desc, i+1)
-		}
+	// Which of the two executions comes first is drawn: state the library
+	// keeps between calls (a one-entry cache keyed by the operand's address,
+	// a pooled scratch) is then met by the caller's own objects first in half
+	// of the calls.
+	drawnFirst := w.t.Bool("ops", "exec.drawnfirst")
+	if !drawnFirst {
+		runFresh()
 	}
-
 	// --- the drawn objects (aliasing as drawn)
 	// the caller's operand slices have spare capacity, with a sentinel in
 	// the element right behind the part that is passed: a routine that
@@ -180,6 +180,9 @@ func (w *World) execPointCall(c *pointCall) {
 		sa[i] = w.scalars[a]
 	}
 	po2 := protect(func() { c.f(w.points[c.recv], pa, sa) })
+	if drawnFirst {
+		runFresh()
+	}
 	spareTouched := paBack[len(c.pargs)] != sentinelP || saBack[len(c.sargs)] != sentinelS
 	for i, a := range c.pargs {
 		if pa[i] != w.points[a] {
@@ -191,6 +194,18 @@ func (w *World) execPointCall(c *pointCall) {
 			spareTouched = true
 		}
 	}
+	for i, a := range c.pargs {
+		was := snapP[a]
+		if w.operandChanged(&was, fpa[i]) {
+			w.r.Violate("C18", "operand-modified", c.name, w.step, "%s: point operand #%d was modified by the call (fresh receiver, distinct operands)", c.desc, i+1)
+		}
+	}
+	for i, a := range c.sargs {
+		if !bytes.Equal(fsa[i].Bytes(), snapS[a]) {
+			w.r.Violate("C18", "operand-modified", c.name, w.step, "%s: scalar operand #%d was modified by the call", c.desc, i+1)
+		}
+	}
+
 	enc2 := encState(w.points[c.recv])
 
 	out := enc2
@@ -689,22 +704,51 @@ func (w *World) opResetSlot() {
 
 func (w *World) opMul() {
 	r := w.pickPoint("recv")
+	var pc *pointCall
+	base := -1 // the point operand, if any
 	switch w.t.Choose("ops", "mul.kind", 4) {
 	case 0, 1:
 		a, s := w.pickPoint("a"), w.pickScalar("s")
-		w.execPointCall(&pointCall{name: "ScalarMult", recv: r, pargs: []int{a}, sargs: []int{s}, desc: fmt.Sprintf("p%d.ScalarMult(s%d=%x,p%d)", r, s, w.scalars[s].Bytes(), a),
-			f: func(v *secp256k1.Point, pa []*secp256k1.Point, sa []*secp256k1.Scalar) { v.ScalarMult(sa[0], pa[0]) }})
+		base = a
+		pc = &pointCall{name: "ScalarMult", recv: r, pargs: []int{a}, sargs: []int{s}, desc: fmt.Sprintf("p%d.ScalarMult(s%d=%x,p%d)", r, s, w.scalars[s].Bytes(), a),
+			f: func(v *secp256k1.Point, pa []*secp256k1.Point, sa []*secp256k1.Scalar) { v.ScalarMult(sa[0], pa[0]) }}
 	case 2:
 		s := w.pickScalar("s")
 		w.noteLookups(w.scalars[s].Bytes())
-		w.execPointCall(&pointCall{name: "ScalarBaseMult", recv: r, sargs: []int{s}, desc: fmt.Sprintf("p%d.ScalarBaseMult(s%d=%x)", r, s, w.scalars[s].Bytes()),
-			f: func(v *secp256k1.Point, _ []*secp256k1.Point, sa []*secp256k1.Scalar) { v.ScalarBaseMult(sa[0]) }})
+		pc = &pointCall{name: "ScalarBaseMult", recv: r, sargs: []int{s}, desc: fmt.Sprintf("p%d.ScalarBaseMult(s%d=%x)", r, s, w.scalars[s].Bytes()),
+			f: func(v *secp256k1.Point, _ []*secp256k1.Point, sa []*secp256k1.Scalar) { v.ScalarBaseMult(sa[0]) }}
 	case 3:
 		a, s1, s2 := w.pickPoint("a"), w.pickScalar("s1"), w.pickScalar("s2")
-		w.execPointCall(&pointCall{name: "DoubleScalarMultBasepointVartime", recv: r, pargs: []int{a}, sargs: []int{s1, s2}, desc: fmt.Sprintf("p%d.DoubleScalarMultBasepointVartime(s%d=%x,s%d=%x,p%d)", r, s1, w.scalars[s1].Bytes(), s2, w.scalars[s2].Bytes(), a),
+		base = a
+		pc = &pointCall{name: "DoubleScalarMultBasepointVartime", recv: r, pargs: []int{a}, sargs: []int{s1, s2}, desc: fmt.Sprintf("p%d.DoubleScalarMultBasepointVartime(s%d=%x,s%d=%x,p%d)", r, s1, w.scalars[s1].Bytes(), s2, w.scalars[s2].Bytes(), a),
 			f: func(v *secp256k1.Point, pa []*secp256k1.Point, sa []*secp256k1.Scalar) {
 				v.DoubleScalarMultBasepointVartime(sa[0], sa[1], pa[0])
-			}})
+			}}
+	}
+	w.execPointCall(pc)
+	// The same multiplication once more after the base object was updated in
+	// place: whatever the library remembers about an operand (tables keyed by
+	// its address, by one of its coordinates) must not outlive its value.
+	if base >= 0 && base != r && w.init[base] && w.t.Chance("ops", "mul.again", 1, 4) {
+		a := base
+		switch w.t.Choose("ops", "mul.update", 3) {
+		case 0:
+			w.execPointCall(&pointCall{name: "Negate", recv: a, pargs: []int{a}, desc: fmt.Sprintf("p%d.Negate(p%d)", a, a),
+				f:     func(v *secp256k1.Point, pa []*secp256k1.Point, _ []*secp256k1.Scalar) { v.Negate(pa[0]) },
+				model: func(m []ref.Pt) ref.Pt { return m[0].Neg() }})
+		case 1:
+			w.execPointCall(&pointCall{name: "Double", recv: a, pargs: []int{a}, desc: fmt.Sprintf("p%d.Double(p%d)", a, a),
+				f:     func(v *secp256k1.Point, pa []*secp256k1.Point, _ []*secp256k1.Scalar) { v.Double(pa[0]) },
+				model: func(m []ref.Pt) ref.Pt { return m[0].Double() }})
+		case 2:
+			w.execPointCall(&pointCall{name: "ConditionalNegate", recv: a, pargs: []int{a}, desc: fmt.Sprintf("p%d.ConditionalNegate(p%d,1)", a, a),
+				f:     func(v *secp256k1.Point, pa []*secp256k1.Point, _ []*secp256k1.Scalar) { v.ConditionalNegate(pa[0], 1) },
+				model: func(m []ref.Pt) ref.Pt { return m[0].Neg() }})
+		}
+		w.r.Fault("operand_updated_in_place_between_identical_calls")
+		again := *pc
+		again.desc += " [again, after the in-place update of its base]"
+		w.execPointCall(&again)
 	}
 }
 
